@@ -1,11 +1,7 @@
 """C02 Frame codec round trip, canonical bytes, backend independence."""
 import hashlib
-import json
-import os
-import subprocess
-import sys
 
-from .. import VERIF, assert_repo
+from .. import assert_repo
 
 ID = 'C02'
 LEVEL = 'exploration'
@@ -330,53 +326,13 @@ def _nontrivial(d):
 
 # --- helper process with the native backend ---------------------------------
 
-_helper = None
 
-
-def _get_helper():
-    global _helper
-    if _helper is None:
-        env = dict(os.environ)
-        env['PYTHONPATH'] = VERIF + os.pathsep + env.get('PYTHONPATH', '')
-        env['PYTHONHASHSEED'] = '0'
-        p = subprocess.Popen([sys.executable, '-m', 'rv.checks.c02', '--native-helper'], stdin=subprocess.PIPE,
-                             stdout=subprocess.PIPE, stderr=subprocess.DEVNULL, env=env, cwd=VERIF, text=True)
-        hello = json.loads(p.stdout.readline())
-        _helper = (p, hello)
-    return _helper
-
-
-def _helper_digests(gen, idx, tier, seed):
-    p, hello = _get_helper()
-    p.stdin.write(json.dumps({'gen': gen, 'idx': idx, 'tier': tier, 'seed': seed}) + '\n')
-    p.stdin.flush()
-    line = p.stdout.readline()
-    if not line:
-        raise RuntimeError('native helper died')
-    return hello, json.loads(line)
-
-
-def _helper_main():
-    sys.modules['cbitstruct'] = None   # makes `import cbitstruct` raise ImportError
-    import logging
-    logging.disable(logging.CRITICAL)
-    assert_repo()
-    import rsocket.frame as F
-    import rsocket.frame_helpers as H
-    from ..runner import case_rng
-    native = (F.ParseHelper.parse_header is F.parse_header_native) and (H.pack_24bit.__module__ == H.__name__) \
-        and 'cbitstruct' not in H.pack_24bit.__code__.co_names
-    sys.stdout.write(json.dumps({'native': bool(native)}) + '\n')
-    sys.stdout.flush()
-    for line in sys.stdin:
-        req = json.loads(line)
-        rng = case_rng(req['seed'], ID, req['gen'], req['idx'])
-        out = []
-        for d in frames_for(req['gen'], req['idx'], rng, req['tier'], req['seed']):
-            dg, wit, _ = check_frame(d, with_reference=False)
-            out.append([dg, [w['clause'] for w in wit]])
-        sys.stdout.write(json.dumps(out) + '\n')
-        sys.stdout.flush()
+def helper_case(gen, idx, rng, tier):
+    out = []
+    for d in frames_for(gen, idx, rng, tier, rng.rv_seed):
+        dg, wit, _ = check_frame(d, with_reference=False)
+        out.append([dg, [w['clause'] for w in wit]])
+    return out
 
 
 # --- check interface ----------------------------------------------------------
@@ -419,7 +375,8 @@ def run_case(gen, idx, rng, tier):
         for w in wit:
             w['detail']['backend'] = 'cbitstruct' if default_is_cbit else 'native'
             witnesses.append(w)
-    hello, other = _helper_digests(gen, idx, tier, seed)
+    from .. import native_helper
+    hello, other = native_helper.ask('rv.checks.c02', gen, idx, tier, seed)
     compared = 0
     if hello.get('native') and default_is_cbit:
         if len(other) != len(digests):
@@ -450,8 +407,3 @@ def run_case(gen, idx, rng, tier):
 
 def classify(w):
     return None
-
-
-if __name__ == '__main__':
-    if '--native-helper' in sys.argv:
-        _helper_main()
